@@ -150,6 +150,10 @@ class Protocol(metaclass=InlineDocstring):
     def __iter__(self):
         return iter(proto_to_files(self._proto))
 
+    def __call__(self):
+        # diff() and patch() call their argument like an RPC protocol query; a Protocol has to answer too
+        return self._proto
+
     @classmethod
     def from_uri(cls, uri):
         """Loads protocol implementation from various sources and converts it to the RPC-like format.
